@@ -23,7 +23,7 @@ def default_cases(kind, name, seed, tier):
     node = loader.CONTRACT_AST[name] if kind == "contract" else loader.LEMMA_AST[name]
     params = _ann(node)
     conv_params = [p for p, a in params if a == "Converter"]
-    n_random = 40 if tier == "quick" else 400
+    n_random = 30 if tier == "quick" else 120
     if not conv_params:
         raise LookupError(f"no default domain for {name}")
     # one converter parameter drives the pools; further converter parameters range over all worlds too
@@ -49,7 +49,7 @@ def default_cases(kind, name, seed, tier):
         total = 1
         for ax in axes:
             total *= len(ax)
-        cap = 400 if tier == "quick" else 4000
+        cap = 300 if tier == "quick" else 1200
         if total <= cap:
             for combo in itertools.product(*axes):
                 yield dict(zip([p for p, _ in params], combo))
